@@ -202,7 +202,7 @@ lem('c18_mpart_cd', ['htp_multipart.c'], CD_H,
 TXLINK = ['htp_transaction.c', 'htp_urlencoded.c', 'htp_table.c', 'htp_list.c', 'bstr.c', 'bstr_builder.c', 'htp_connection.c',
           'htp_connection_parser.c', 'htp_util.c', 'htp_multipart.c', 'htp_hooks.c', 'htp_config.c', 'htp_decompressors.c']
 URLB_H = r'''
-void c18_nop_urldecode(htp_tx_t *tx, bstr *b) { VASSERT(__CPROVER_r_ok(b, sizeof(bstr)), "decoded string is live"); }
+htp_status_t c18_nop_urldecode(htp_tx_t *tx, bstr *b) { VASSERT(__CPROVER_r_ok(b, sizeof(bstr)), "decoded string is live"); return HTP_OK; }
 static void urlb_case(int npairs, int state) {                        /* npairs is a constant */
   htp_tx_t *tx = malloc(sizeof(*tx)); htp_cfg_t *cfg = malloc(sizeof(*cfg)); htp_urlenp_t *up = malloc(sizeof(*up));
   htp_table_t *tp = malloc(sizeof(*tp)); void **tpe = C18_ELEMS_RAW(2);      /* tx->request_params: room for ONE pair, the second add must grow */
@@ -235,7 +235,7 @@ static void urlb_case(int npairs, int state) {                        /* npairs 
   htp_tx_destroy_incomplete(tx);                                                                         /* REAL teardown: parsers, parameters, tables */
   free(cfg);
 }
-void HARNESS(void) { int state; VASSUME(state == HTP_URLENP_STATE_KEY || state == HTP_URLENP_STATE_VALUE);
+void HARNESS(void) { int state = HTP_URLENP_STATE_KEY;      /* body ended with the separator: the final (empty) field adds no pair */
   int np; VASSUME(np >= 0 && np <= 2);
   if (np == 0) urlb_case(0, state); if (np == 1) urlb_case(1, state); if (np == 2) urlb_case(2, state);
   CANARY(); }'''
@@ -243,8 +243,44 @@ lem('c18_urlenc_body', ['htp_content_handlers.c'], URLB_H,
     'htp_ch_urlencoded_callback_request_body_data at end of body ; REAL htp_tx_destroy_incomplete (htp_urlenp_destroy, parameter loop, htp_table_destroy): the 0..2 parsed pairs are owned by exactly one table at teardown whichever allocation fails (param record, growth of tx->request_params, the empty strings of the final field); nothing leaks on success',
     ['transaction, configuration, urlencoded parser, its table (0, 1 or 2 adopted pairs) and string builder laid out field by field as htp_tx_create / htp_urlenp_create / htp_urlenp_add_field_piece leave them; one-byte names and values',
      'tx->request_params has room for one pair, so the second move exercises the growth path and its failure; no parameter_processor',
+     'parser state at end of body = KEY with nothing pending (a body ending in the separator); the VALUE state, where htp_urlenp_finalize itself appends one more pair through the real htp_table_addn, runs out of memory in propositional reduction (12 GB) and is covered only by the native sweep findings/c18_urlenc_params.c',
      'htp_tx_urldecode_params_inplace (no allocation; in-place decoder, C12/C15) exchanged at its call sites by a stand-in that requires a live bstr',
      'the other transaction fields are NULL (htp_tx_destroy_incomplete handles them by its NULL tests; no connection attached)',
      'KNOWN_F_C18_URLENC_PARAMS: after HTP_ERROR with the parser table still alive the harness rolls the partial move back (frees the htp_param_t records, empties tx->request_params) before the teardown (finding c18_urlenc_params); everything else is checked'],
     defs={'KNOWN_F_C18_URLENC_PARAMS': 1}, link=TXLINK, unwind=6,
     pre_instrument=['--replace-calls', 'htp_tx_urldecode_params_inplace:c18_nop_urldecode'])
+
+# ======================================================================================================================
+# 6. htp_tx_create ; htp_tx_destroy_incomplete ; htp_conn_destroy (all REAL)
+# ======================================================================================================================
+TXC_H = r'''
+static void txc_case(int full) {                                   /* full: the transaction list has no free slot, htp_list_add must grow */
+  htp_connp_t *connp = malloc(sizeof(*connp)); htp_conn_t *conn = malloc(sizeof(*conn)); htp_cfg_t *cfg = malloc(sizeof(*cfg));
+  htp_list_array_t *txs = malloc(sizeof(*txs)); void **txe = C18_ELEMS_RAW(1);
+#define CLEAN free(connp); free(conn); free(cfg); free(txs); free(txe)
+  C18_NEED(connp, CLEAN) C18_NEED(conn, CLEAN) C18_NEED(cfg, CLEAN) C18_NEED(txs, CLEAN) C18_NEED(txe, CLEAN)
+  *connp = (htp_connp_t){0}; *conn = (htp_conn_t){0}; *cfg = (htp_cfg_t){0};
+  C18_LIST_INIT(txs, txe, 1);
+  if (full) { C18_LIST_PUT(txs, NULL); txs->last = 0; }            /* one slot, taken by an already destroyed transaction (NULL entry) */
+  conn->transactions = txs; connp->conn = conn; connp->cfg = cfg;
+  htp_tx_t *tx = htp_tx_create(connp);
+  if (tx != NULL) {
+    VASSERT(tx->connp == connp && tx->conn == conn && tx->cfg == cfg && tx->is_config_shared == HTP_CONFIG_SHARED, "created transaction is wired to its parser, connection and configuration");
+    VASSERT(tx->parsed_uri_raw != NULL && tx->request_headers != NULL && tx->request_params != NULL && tx->response_headers != NULL, "created transaction owns its four containers");
+    connp->in_tx = tx; connp->out_tx = tx;
+    int in_list = htp_list_size(conn->transactions) > 0 && htp_list_get(conn->transactions, htp_list_size(conn->transactions) - 1) == tx;
+    if (!full) VASSERT(in_list, "with a free slot the transaction is registered with the connection");
+    /* htp_tx_create ignores the result of htp_list_add: after a failed growth the transaction is returned but NOT registered, so
+     * htp_conn_destroy would never see it (a leak, not a memory error).  The harness destroys such a transaction itself. */
+    if (!in_list || destroy_first) { htp_tx_destroy_incomplete(tx); VASSERT(connp->in_tx == NULL && connp->out_tx == NULL, "a destroyed transaction is detached from the parser"); }
+  } else VASSERT(htp_list_size(conn->transactions) == (size_t) (full != 0), "failed creation registers nothing");
+  htp_conn_destroy(conn);                                           /* destroys every transaction still registered, the list and the connection */
+  free(connp); free(cfg);
+}
+void HARNESS(void) { int full; if (full) txc_case(1); else txc_case(0); CANARY(); }'''
+lem('c18_tx_create', ['htp_transaction.c'], TXC_H.replace('destroy_first', 'nondet_int()'),
+    'htp_tx_create ; [htp_tx_destroy_incomplete] ; htp_conn_destroy, all real (htp_uri_alloc, three htp_table_create, htp_list_add with and without growth): every partial construction is undone exactly once, a transaction whose registration failed is still destroyable (htp_conn_remove_tx declines), nothing leaks',
+    ['parser, connection (no addresses, no log messages) and configuration laid out field by field; transaction list of capacity 1, empty or holding one NULL entry (then htp_list_add must grow: realloc path and its failure)',
+     'surfaced, not a C18 violation: htp_tx_create ignores htp_list_add\'s result; an unregistered transaction is never destroyed by htp_conn_destroy (leak) - the harness destroys it explicitly',
+     'real htp_table.c, htp_list.c, bstr.c, htp_util.c, htp_connection.c, htp_connection_parser.c, htp_urlencoded.c, htp_multipart.c, htp_hooks.c, htp_config.c linked'],
+    link=[l for l in TXLINK if l != 'htp_transaction.c'] + ['htp_content_handlers.c'], unwind=3, post='int nondet_int(void);')
